@@ -1011,7 +1011,7 @@ def run_collocate_case(ck, case, use_model):
     if case["op"] == "inject" and not spy.injecting:
         ck.count("diag/injection-hook-not-installed")
     op = spy.original_pairs
-    if op is None:
+    if op is None and res is not None:
         ck.count("diag/compaction-input-not-observed")
     if res is None:
         if op is not None and op.size:
@@ -1142,6 +1142,20 @@ def explore(ck, n_ds, n_inj, n_col, big, use_model=True):
         run_case(ck, gen_collocate_case(rng), use_model)
 
 
+def big_cases(ck, use_model):
+    """always part of a run (also quick): datasets with >= 1000 pairs, i.e. the alternative
+    row-assignment branch of collapse, in the shapes that branch is sensitive to — pair order
+    shuffled, and pair order sorted by the first group (as Collocator.collocate delivers) so that the
+    indices of the SECOND group recur non-contiguously; check_collapse uses each group as reference"""
+    rng = ck.rng
+    for sort, style in ((False, "many2many"), (True, "many2many"), (False, "many2one")):
+        layout = gen_layout(rng)
+        layout.update({"C": 1, "q": False, "z": False, "nc": False, "vmax": 20})
+        d = gen_ds(rng, layout, rng.randint(1000, 1400), style=style, sort=sort)
+        case = {"op": "ds", "list": [d], "alias": None, "collapser": not sort}
+        run_case(ck, case, use_model)
+
+
 def exhaustive_small(ck, use_model):
     """every valid pair list (ordered, duplicates allowed) with up to 4 pairs over 1..2 x 1..2 stored
     points and up to 3 pairs over 2 x 3 / 3 x 2 points, fixed data with a NaN; each also concatenated
@@ -1211,10 +1225,12 @@ def main():
         ck.exhaustive = True
         ck.notes.append(f"exhaustive: all {k} valid ordered pair lists with <= 4 pairs over <= 2x2 stored points and <= 3 pairs "
                         "over 2x3 / 3x2 stored points (collapse both references, expand, concat with itself)")
+    big_cases(ck, use_model)
     big = 0.04 if ck.tier == "quick" else 0.06
     explore(ck, ck.budget(130, 1300), ck.budget(50, 600), ck.budget(30, 300), big, use_model)
     if ck.broken() and not ck.violations:
         # failing-input search on the real code with the larger budget (oracle only)
+        big_cases(ck, False)
         if ck.tier == "quick":
             explore(ck, 500, 250, 120, 0.05, use_model=False)
         else:
